@@ -1743,17 +1743,25 @@ impl<'a, 'b, W: Write> SerializeSeq for SeqSer<'a, 'b, W> {
         } else {
             // If we are the value of a mapping key, we deferred the newline until we knew the
             // sequence is non-empty. Insert it now before emitting the first dash.
+            let mut started_new_line = false;
             if self.first && self.ser.pending_space_after_colon {
                 self.ser.pending_space_after_colon = false;
                 if !self.ser.at_line_start {
                     self.ser.newline()?;
                 }
+                // The sequence is a mapping value that now starts on its own line: its first
+                // dash needs the indentation like every other one, whatever inline hint the
+                // key (e.g. a complex `? key`) left behind.
+                started_new_line = true;
             }
             // If previous element was an inline map after a dash, just clear the flag; do not change depth.
             if !self.first && self.ser.inline_map_after_dash {
                 self.ser.inline_map_after_dash = false;
             }
-            if self.first && (!self.ser.at_line_start || self.ser.pending_inline_map) {
+            if self.first
+                && !started_new_line
+                && (!self.ser.at_line_start || self.ser.pending_inline_map)
+            {
                 // Inline the first element of this nested sequence right after the outer dash
                 // (either we are already mid-line, or the parent staged inline via pending_inline_map).
                 // Do not write indentation here.
